@@ -39,12 +39,16 @@ type config struct {
 	// repaired again ("description reload" with a fault): while it is unreadable nobody is
 	// admitted, and the members, the lock and the capacity must survive it
 	Faulty bool `json:"faulty,omitempty"`
+	// Reload: during the history max-clients is edited on disk (a file of the same size with a
+	// new modification time): later joins are decided by the new value
+	Reload bool `json:"reload,omitempty"`
 }
 
 type input struct {
-	Op   string `json:"op"` // join, leave, lock, unlock, locked?, count?, members?
+	Op   string `json:"op"` // join, leave, lock, unlock, locked?, count?, members?, break, repair, setmax
 	ID   string `json:"id,omitempty"`
 	IsOp bool   `json:"isop,omitempty"`
+	Max  int    `json:"max,omitempty"`
 }
 
 type output struct {
@@ -61,6 +65,7 @@ type output struct {
 type state struct {
 	locked  bool
 	broken  bool            // the description file is unreadable
+	max     int             // max-clients in force (as last written to the file)
 	members map[string]bool // id -> is operator
 }
 
@@ -81,14 +86,16 @@ func encode(s state) string {
 	if s.broken {
 		l += "B"
 	}
-	return l + "|" + strings.Join(ids, ",")
+	return fmt.Sprintf("%s%d|%s", l, s.max, strings.Join(ids, ","))
 }
 
 func decode(e string) state {
 	s := state{members: map[string]bool{}}
 	parts := strings.SplitN(e, "|", 2)
 	s.locked = strings.HasPrefix(parts[0], "L")
-	s.broken = strings.HasSuffix(parts[0], "B")
+	flags := strings.TrimRight(parts[0], "0123456789")
+	s.broken = strings.HasSuffix(flags, "B")
+	fmt.Sscan(parts[0][len(flags):], &s.max)
 	if len(parts) > 1 && parts[1] != "" {
 		for _, id := range strings.Split(parts[1], ",") {
 			if strings.HasSuffix(id, "*") {
@@ -128,7 +135,7 @@ func model(cfg config) porcupine.Model {
 		Init: func() interface{} {
 			// "with autolock the group starts locked": the lock is applied when the group
 			// object is created, which is observable before the first join is decided
-			s := state{members: map[string]bool{}, locked: cfg.Autolock}
+			s := state{members: map[string]bool{}, locked: cfg.Autolock, max: cfg.Max}
 			return encode(s)
 		},
 		Step: func(st, in, out interface{}) (bool, interface{}) {
@@ -136,6 +143,9 @@ func model(cfg config) porcupine.Model {
 			i := in.(input)
 			o := out.(output)
 			switch i.Op {
+			case "setmax":
+				s.max = i.Max
+				return true, encode(s)
 			case "break":
 				s.broken = true
 				return true, encode(s)
@@ -163,7 +173,7 @@ func model(cfg config) porcupine.Model {
 					admit = false
 				}
 				if !i.IsOp {
-					if s.locked || cfg.Window >= 2 || (cfg.Autokick && !hasOp(s)) || (cfg.Max > 0 && len(s.members) >= cfg.Max) {
+					if s.locked || cfg.Window >= 2 || (cfg.Autokick && !hasOp(s)) || (s.max > 0 && len(s.members) >= s.max) {
 						admit = false
 					}
 				}
@@ -257,8 +267,15 @@ func runHistory(run *vk.Run, idx uint64) {
 	r := run.Rand(1, idx)
 	cfg := config{Max: []int{0, 1, 2, 3, 5}[r.IntN(5)], Autolock: r.IntN(3) == 0, Autokick: r.IntN(4) == 0, Window: []int{0, 0, 1, 1, 2, 3}[r.IntN(6)]}
 	cfg.Faulty = idx%4 == 3
+	if idx%8 == 5 {
+		cfg.Reload = true
+		if cfg.Max == 0 {
+			cfg.Max = 3
+		}
+	}
 	name := fmt.Sprintf("h%d-%d", idx, groupSeq.Add(1))
 	writeGroup(name, cfg)
+	lastWrite := time.Now()
 	threads := 3 + r.IntN(6)
 	perThread := 3 + r.IntN(6)
 	rec := &recorder{}
@@ -271,7 +288,7 @@ func runHistory(run *vk.Run, idx uint64) {
 	stopSampler := make(chan struct{})
 	// sampler: the number of non-operator members never exceeds max-clients
 	var samplerWG sync.WaitGroup
-	if cfg.Max > 0 {
+	if cfg.Max > 0 && !cfg.Reload {
 		samplerWG.Add(1)
 		go func() {
 			defer samplerWG.Done()
@@ -311,6 +328,19 @@ func runHistory(run *vk.Run, idx uint64) {
 				}()
 			}
 			for k := 0; k < perThread; k++ {
+				if cfg.Reload && t == 0 && rr.IntN(2) == 0 {
+					// a new inode is stamped from the kernel's coarse clock: a version is only
+					// replaced when it is 25 ms old, so that the file certainly looks changed
+					for time.Since(lastWrite) < 25*time.Millisecond {
+						time.Sleep(time.Millisecond)
+					}
+					m := []int{1, 2, 3, 5}[rr.IntN(4)]
+					c2 := cfg
+					c2.Max = m
+					rec.do(t, input{Op: "setmax", Max: m}, func() output { writeGroup(name, c2); return output{} })
+					lastWrite = time.Now()
+					run.Count("max_clients_edited_on_disk", 1)
+				}
 				if cfg.Faulty && t == 0 && rr.IntN(3) == 0 {
 					if !broken {
 						rec.do(t, input{Op: "break"}, func() output {
@@ -771,6 +801,8 @@ func classify(cfg config, ops []porcupine.Operation) string {
 	switch {
 	case cfg.Faulty:
 		return "unreadable-description"
+	case cfg.Reload:
+		return "max-clients-edited"
 	case cfg.Autolock:
 		return "autolock"
 	case cfg.Autokick:
